@@ -266,6 +266,24 @@ fn order_case() -> impl Strategy<Value = TreeCase> {
         })
 }
 
+/// consistent setups (stubs may contain response-less `each.call(m);` patterns in front of further patterns)
+/// spread over a random tuple tree: nothing may be dropped or reordered on the way into the mock
+pub fn consistent_cfg() -> Cfg {
+    let mut cfg = offender_cfg();
+    cfg.allow_empty_stub_chain = true;
+    cfg.max_stub_pats = 4;
+    cfg.max_history = 10;
+    cfg.prefer_match = 200;
+    cfg
+}
+
+fn consistent_case() -> impl Strategy<Value = TreeCase> {
+    gen::scenario(consistent_cfg()).prop_flat_map(|scn| {
+        let n = scn.clauses.len();
+        (tree_strategy(n), proptest::bool::weighted(0.25)).prop_map(move |(tree, construct_while_unwinding)| TreeCase { scn: scn.clone(), tree, construct_while_unwinding })
+    })
+}
+
 pub fn offender_cfg() -> Cfg {
     let mut cfg = Cfg::base();
     cfg.methods = vec![0, 1, 2, 4, 6];
@@ -341,7 +359,7 @@ pub fn arity_sweep() -> Vec<TreeCase> {
     v
 }
 
-pub const RULE: &str = "arity-sweep = every tuple arity 0, 2..16 as a flat tuple of distinct ordered leaf clauses (accepted only in declaration order) with the in-order history, every adjacent transposition of it, one n_times(0) leaf at every position, and the same tuple nested between two further leaves, strict and partial: enumerated exhaustively. trees = random tuple trees (arity 0, 2..16, depth <= 4, up to 40 leaves) over the same leaves, with and without a transposed call, with and without n_times(0) leaves, with and without unordered exact-count clauses of another method between the ordered leaves. offenders = generated consistent setups (C01-C04 style) with one offending clause (the opposite mode for an already mentioned method, or an empty stub) injected at a generated position of a random tree; a share of all mocks is constructed by a destructor that runs during the unwinding of a caught user panic. compile-fail = builder chains about ordering/exactness that must not type-check (program-generation engine). Non-trivial = arity >= 6 or depth >= 2, or an offending clause; distinct = distinct case";
+pub const RULE: &str = "arity-sweep = every tuple arity 0, 2..16 as a flat tuple of distinct ordered leaf clauses (accepted only in declaration order) with the in-order history, every adjacent transposition of it, one n_times(0) leaf at every position, and the same tuple nested between two further leaves, strict and partial: enumerated exhaustively. trees = random tuple trees (arity 0, 2..16, depth <= 4, up to 40 leaves) over the same leaves, with and without a transposed call, with and without n_times(0) leaves, with and without unordered exact-count clauses of another method between the ordered leaves. offenders = generated consistent setups (C01-C04 style) with one offending clause (the opposite mode for an already mentioned method, or an empty stub) injected at a generated position of a random tree; a share of all mocks is constructed by a destructor that runs during the unwinding of a caught user panic. consistent-setups-on-trees = generated consistent C01-C04 style setups (stubs with up to 4 patterns, response-less `each.call(m);` patterns allowed in front of further ones) spread over a random tree, histories of up to 10 calls compared with the reference model. compile-fail = builder chains about ordering/exactness that must not type-check (program-generation engine). Non-trivial = arity >= 6 or depth >= 2, or an offending clause; distinct = distinct case";
 
 pub fn run(ctx: &Ctx) -> Verdict {
     let mut v = Verdict::new("exploration", RULE);
@@ -355,6 +373,7 @@ pub fn run(ctx: &Ctx) -> Verdict {
     let n = ctx.tier.pick(40_000, 1_000_000);
     v.subs.push(vcore::run_proptest(ctx, "trees", n, order_case(), check));
     v.subs.push(vcore::run_proptest(ctx, "offenders", n, offender_case(), check));
+    v.subs.push(vcore::run_proptest(ctx, "consistent-setups-on-trees", n, consistent_case(), check));
     v.subs.push(vcore::sub_report_from("progen", &["--sub-json", "C14", ctx.tier.name()], "compile-fail"));
     v.subs.extend(super::variant_reports(ctx, &["nostd-spin", "nostd-nomutex"]));
     v
